@@ -1,6 +1,8 @@
 import Driver.Util
 import Hv.Patch.Ops
 import Hv.Patch.Spec
+import Hv.Patch.PatchFields
+import Hv.Patch.RoundTrip
 
 /-! Driver for domain C13: runs the Lean model of `msgpackpatch` / `PatchFields` on the op
     lines produced by `harness/c13.go` (all byte strings travel as hex on the line).
@@ -157,27 +159,85 @@ def canonNaN : Nat → Nat → Bytes → Bytes
         | .error _ => b
         | .ok (m, r') => c :: r.take k ++ canonNaN fuel (n + m) r'
 
-def stepPf (cfg : Cfg) (mg : Magic) (line : String) : Unit × String :=
+/-- `b:HEX[@EXPNANOS]` | absent | other → treasure before the call -/
+def treasureOf (s : String) : Option Treasure :=
+  if s == "absent" then some Treasure.empty
+  else if s == "other" then some { Treasure.empty with content := .other }
+  else if s.startsWith "b:" then
+    match ((s.drop 2).toString).splitOn "@" with
+    | [h] => (unhex h).map fun raw => { Treasure.empty with content := .bytes raw }
+    | [h, e] =>
+      match unhex h, e.toInt? with
+      | some raw, some n => some { Treasure.empty with content := .bytes raw, exp := n }
+      | _, _ => none
+    | _ => none
+  else none
+
+def metaOf (s : String) : Option (Option PatchMeta) :=
+  if s == "-" then some none else
+  let step (acc : Option PatchMeta) (tok : String) : Option PatchMeta :=
+    match acc with
+    | none => none
+    | some m =>
+      if tok == "ua" then some { m with updAt := true }
+      else if tok == "ca" then some { m with crAt := true }
+      else if tok == "clr" then some { m with clearExp := true }
+      else if tok.startsWith "ub=" then (unhex (tok.drop 3).toString).map fun b => { m with updBy := b }
+      else if tok.startsWith "cb=" then (unhex (tok.drop 3).toString).map fun b => { m with crBy := b }
+      else if tok.startsWith "exp=" then ((tok.drop 4).toString.toInt?).map fun n => { m with setExp := some n }
+      else none
+  ((s.splitOn ",").foldl step (some ⟨false, [], false, [], none, false⟩)).map some
+
+/-- does the op list fail, in the model, at an op that the Spec applies to the decoded document? -/
+def opaqueFail (cfg : Cfg) : Node → List Op → Bool
+  | _, [] => false
+  | t, op :: rest =>
+    match stepOp cfg t op with
+    | .ok t' => opaqueFail cfg t' rest
+    | .error e => e == .type && (match Spec.refOp (norm t) op with | .ok _ => true | .error _ => false)
+
+def stepPf (pc : PfCfg) (line : String) : Unit × String :=
   match line.splitOn " " with
-  | "pf" :: sh :: cr :: seedh :: ch :: opss =>
-    match storedOf sh, unhex seedh, parseCond ch, parseOps opss with
-    | some st, some seed, some cond, some ops =>
-      let (s, st') := patchFields cfg mg st ops cond (cr == "1") seed
-      -- wf: does the parser accept what is stored behind the two prefix bytes;
-      -- new: `PatchFieldsResult.NewMsgpack` (the unwrapped body, only on PATCHED / CREATED)
-      let w := match st' with
+  | "pf" :: sh :: cr :: seedh :: mh :: ch :: opss =>
+    match treasureOf sh, unhex seedh, metaOf mh, parseCond ch, parseOps opss with
+    | some tr, some seed, some m, some cond, some ops =>
+      let r := patchFieldsT pc tr ops cond (cr == "1") seed m
+      let t := r.treasure
+      -- wf: does the parser accept what is stored behind the two prefix bytes
+      let w := match t.content with
         | .bytes (_ :: _ :: body) => wf body
         | _ => false
-      let echo := match s, st' with
-        | .patched, .bytes (_ :: _ :: body) => hexOrDash body
-        | .created, .bytes (_ :: _ :: body) => hexOrDash body
-        | _, _ => "-"
-      let f1 := if (s == .patched || s == .created) && !w then "\t#F:C13-unvalidated-op-value" else ""
-      ((), s!"st={s.code} {showStored st'} wf={if w then 1 else 0} new={echo}{f1}")
-    | _, _, _, _ => ((), "bad-op")
+      let echo := match r.newBody with
+        | some b => hexOrDash b
+        | none => "-"
+      let b01 := fun (b : Bool) => if b then "1" else "0"
+      let f1 := if (r.status == 0 || r.status == 1) && !w then "\t#F:C13-unvalidated-op-value" else ""
+      -- the code's status for this error class is not the documented one
+      let f3 :=
+        (match pfGate pc tr (cr == "1") seed with
+         | .ok (body, _) =>
+           (match applyWithCondition pc.cfg body ops cond with
+            | .error e => if pc.smap.of e != documentedMap.of e then "\t#F:C13-status-mapping" else ""
+            | .ok _ => "")
+         | .error _ => "")
+      let f2 :=
+        if r.status == pc.smap.type then
+          (match pfGate pc tr (cr == "1") seed with
+           | .ok (body, _) =>
+             (match applyWithCondition pc.cfg body ops cond, parse body with
+              | .error .type, .ok t =>
+                let condOk := match cond with
+                  | none => true
+                  | some c => (match evalCond pc.cfg t c with | .ok () => true | .error _ => false)
+                if condOk && opaqueFail pc.cfg t ops then "\t#F:C13-spliced-value-opaque" else ""
+              | _, _ => "")
+           | .error _ => "")
+        else ""
+      ((), s!"st={r.status} {showStored t.content} wf={b01 w} new={echo} exp={t.exp} mat={b01 t.modAt} mby={hexOrDash t.modBy} cat={b01 t.crAt} cby={hexOrDash t.crBy}{f1}{f2}{f3}")
+    | _, _, _, _, _ => ((), "bad-op")
   | _ => ((), "bad-op")
 
-def step (cfg : Cfg) (mg : Magic) (_ : Unit) (line : String) : Unit × String :=
+def step (cfg : Cfg) (pc : PfCfg) (_ : Unit) (line : String) : Unit × String :=
   match line.splitOn " " with
   | ["case", _] => ((), line)
   | ["parse", h] =>
@@ -188,11 +248,24 @@ def step (cfg : Cfg) (mg : Magic) (_ : Unit) (line : String) : Unit × String :=
       | .error e => ((), s!"err {e}")
       | .ok t => ((), "ok " ++ showNode t)
   | verb :: bh :: ch :: opss =>
-    if verb != "ap" && verb != "apn" then stepPf cfg mg line else
+    if verb != "ap" && verb != "apn" then stepPf pc line else
     match unhex bh, parseCond ch, parseOps opss with
     | some body, some cond, some ops =>
       match applyWithCondition cfg body ops cond with
-      | .error e => ((), s!"err {e}")
+      | .error e =>
+        -- a TYPE_MISMATCH at an op the documented semantics (Spec) would apply: the op addresses into a
+        -- container value that an earlier op of the same patch spliced in as an opaque leaf
+        let fo :=
+          if e == .type then
+            (match parse body with
+             | .ok t =>
+               let condOk := match cond with
+                 | none => true
+                 | some c => (match evalCond cfg t c with | .ok () => true | .error _ => false)
+               if condOk && opaqueFail cfg t ops then "\t#F:C13-spliced-value-opaque" else ""
+             | .error _ => "")
+          else ""
+        ((), s!"err {e}{fo}")
       | .ok out =>
         let w := wf out
         let f1 := if w then "" else "\t#F:C13-unvalidated-op-value"
@@ -221,7 +294,12 @@ def run (args : List String) : IO UInt32 := do
   let mg : Magic := match unhex (arg kv "magic") with
     | some [a, b] => ⟨a, b⟩
     | _ => ⟨0, 0⟩
-  lineLoop (step cfg mg) ()
+  let nums := ((arg kv "smap").splitOn ",").filterMap (·.toNat?)
+  let smap : StatusMap := match nums with
+    | [a, b, c, d, e, f] => ⟨a, b, c, d, e, f⟩
+    | _ => ⟨99, 99, 99, 99, 99, 99⟩
+  let seed := (unhex (arg kv "seedDefault")).getD []
+  lineLoop (step cfg ⟨cfg, mg, smap, seed⟩) ()
   return 0
 
 end Driver.C13
